@@ -157,7 +157,8 @@ pub fn c09(tier: &str) -> i32 {
                 (false, false, _) => 4,
                 (false, true, _) => 3,
             };
-            let opts = Opts { max_depth: 64, max_memo: 64, dev_budget: if has_m || !quick { 1 } else { 0 }, frame: FrameSel::Off, ref_in_key: false, shape_key: true, max_path: lp, ..Opts::default() };
+            // exact object graphs multiply quickly: value deviations only on the short paths
+            let opts = Opts { max_depth: 64, max_memo: 64, dev_budget: if has_m || (!quick && lp <= 4 && p >= 4) { 1 } else { 0 }, frame: FrameSel::Off, ref_in_key: false, shape_key: true, max_path: lp, ..Opts::default() };
             let t0 = Instant::now();
             let ex = Explorer { base_cfg: cfg, opts, monitor: &guard, xval_full: Default::default(), choice_discovery: Default::default() };
             let out = ex.explore(None);
